@@ -211,6 +211,15 @@ Definition o_option_output (outfile : str) : output :=
 (* infile as given on the command line -> the name the compiler sees *)
 Definition source_name (cwd infile : str) : str := abspath cwd infile.
 
+(* args.outfile after the --implicit-bin step: only without -o and without directives the first
+   source names the file *)
+Definition effective_outfile (first_source : str) (emitted_list : list emitted)
+           (outfile : option str) (implicit_bin : bool) : option str :=
+  match outfile, emitted_list with
+  | None, [] => if implicit_bin then Some (strip_suffix_ci first_source (s ".mac") ++ s ".bin") else None
+  | _, _ => outfile
+  end.
+
 (* outputs of a successful run: the directives' files in order, then the -o / --implicit-bin
    file.  [emitted_list] are the directives of all linked files; an error among them fails the
    assembly before anything is written. *)
@@ -219,9 +228,30 @@ Definition cli_outputs (first_source : str) (emitted_list : list emitted)
   if existsb e_error emitted_list then None else
   let from_directives :=
     map (fun e => {| o_dest := ToFile (e_path e); o_format := e_format e; o_tape_name := e_name e |}) emitted_list in
-  let outfile' :=
-    match outfile, emitted_list with
-    | None, [] => if implicit_bin then Some (strip_suffix_ci first_source (s ".mac") ++ s ".bin") else None
-    | _, _ => outfile
-    end in
-  Some (from_directives ++ match outfile' with Some o => [o_option_output o] | None => [] end).
+  Some (from_directives ++ match effective_outfile first_source emitted_list outfile implicit_bin with
+                           | Some o => [o_option_output o]
+                           | None => []
+                           end).
+
+(* --lst: the listing goes next to the -o / --implicit-bin file, else next to the first
+   directive's file: a trailing ".<format name>" is replaced by ".lst"; for stdout it is
+   "listing.lst" *)
+Definition format_name (f : format) : str :=
+  match f with FmtBin => s "bin" | FmtRaw => s "raw" | FmtBkWav => s "bk_wav" | FmtBkTurboWav => s "bk_turbo_wav" end.
+
+Definition listing_path (f : format) (path : str) : str :=
+  let ext := dot :: format_name f in
+  let stem := if ends_with path ext then drop_last (length ext) path else path in
+  let l := stem ++ s ".lst" in
+  if str_eqb l (s "-.lst") then s "listing.lst" else l.
+
+Definition cli_listing (first_source : str) (emitted_list : list emitted)
+           (outfile : option str) (implicit_bin : bool) : option str :=
+  if existsb e_error emitted_list then None else
+  match effective_outfile first_source emitted_list outfile implicit_bin with
+  | Some o => Some (listing_path (o_format (o_option_output o)) o)
+  | None => match emitted_list with
+            | e :: _ => Some (listing_path (e_format e) (e_path e))
+            | [] => None
+            end
+  end.
